@@ -266,8 +266,35 @@ for _d in (2, 3):
     PREDEFINED_OK[("vecbf:%dD:(%d,%d):divdiv" % (_d, _d, _d), False)] = "DivDivAssembler%dD" % _d
 
 
+_ANCHORS = {}
+
+
+def _anchor_sems():
+    """shipped class name -> semantic signature of the grammar program that is this shipped form (the programs of
+    PREDEFINED_OK, plus f*v*dx with the field given in physical coordinates = L2functional_vf(physical=True))"""
+    if not _ANCHORS:
+        progs = {p["tag"]: p for p in vgen.all_programs(dims=(1, 2, 3))}
+        for (tag, od), cname in PREDEFINED_OK.items():
+            k, sem = key_and_source(progs[tag], od)
+            if k is not None:
+                _ANCHORS[cname] = sem
+        for d in (2, 3):
+            q = copy.deepcopy(progs["func:%dD:f*v" % d])
+            q["inputs"]["f"]["physical"] = True
+            k, sem = key_and_source(q, False)
+            if k is not None:
+                _ANCHORS["L2FunctionalAssemblerPhys%dD" % d] = sem
+    return _ANCHORS
+
+
 def _predefined_ok(prog, od, asm):
-    return PREDEFINED_OK.get((prog.get("tag"), bool(od))) == getattr(asm, "__name__", None)
+    """a request answered with a shipped class is right iff the requested form is the same assembler as the grammar
+    program known to be that shipped form"""
+    cname = getattr(asm, "__name__", None)
+    if od or cname not in _anchor_sems():
+        return False
+    k, sem = key_and_source(prog, od)
+    return k is not None and same_assembler(sem, _anchor_sems()[cname])
 
 
 class _StubModule:
